@@ -669,9 +669,14 @@ impl Node {
         if let Some(conn) = self.connections.get(remote_node) {
             tracing::trace!("Found connection, sending to rex");
             let mut conn_guard = conn.lock().await;
-            conn_guard
+            if let Err(e) = conn_guard
                 .send_to_name(reply_to_pid, Atom::new("rex"), call_request)
-                .await?;
+                .await
+            {
+                // no request went out, so no reply will ever claim the entry
+                self.pending_rpcs.remove(&pid_str);
+                return Err(e.into());
+            }
             tracing::trace!("Message sent to rex");
             #[cfg(feature = "verif-hooks")]
             edp_client::verif::yield_point("node:rpc:after_send").await;
